@@ -258,6 +258,29 @@ func runC19(c *engine.Ctx) {
 
 	// ---- R7 ----
 	checkConfigReadPerAttempt(c, "R7")
+
+	// ---- R8 ----
+	c.Rule("R8", "every event the proxy wrapper sends to the control (start-proxy, close-proxy) is sent while Wrapper.mu is held: the phase decision and the message it causes cannot be separated by a concurrent Stop, so a stopped proxy sends no further registration")
+	n = 0
+	if hF := field(c, "client/proxy", "Wrapper", "handler"); hF != nil {
+		muF := field(c, "client/proxy", "Wrapper", "mu")
+		for _, f := range p.RepoFuncs() {
+			engine.ForEachInstr(f, func(in ssa.Instruction) {
+				call, ok := in.(ssa.CallInstruction)
+				if !ok || call.Common().IsInvoke() {
+					return
+				}
+				if lf, _ := engine.LoadedField(call.Common().Value); lf != hF {
+					return
+				}
+				n++
+				held := li.HeldAt(in)
+				c.Check(muF != nil && held[muF] > 0, fmt.Sprintf("%s>event-under-lock#%d", p.FuncName(f), n), in.Pos(), 1, []string{"held: " + strings.Join(held.Names(), ",")},
+					"the event is sent with Wrapper.mu held")
+			})
+		}
+	}
+	c.Floor(n, 2)
 }
 
 // checkConfigReadPerAttempt (C19.R7; the same obligation is part of C14.R5): the proxy and visitor configurations a new
@@ -327,7 +350,18 @@ func checkPhaseStores(c *engine.Ctx) {
 		}
 		return false, false
 	}
+	// afterTimeout: the path carries "now is later than <stamp> + d" in one of its spellings, with the right
+	// orientation: now.After(stamp.Add(d)), stamp.Add(d).Before(now), now.Sub(stamp) > d, time.Since(stamp) > d
 	afterTimeout := func(st *engine.PathState, stamp string) bool {
+		hasStamp := func(v ssa.Value) bool {
+			src := engine.Provenance(v, engine.ProvOpts{})
+			for fv := range src.Fields {
+				if fv.Name() == stamp {
+					return true
+				}
+			}
+			return false
+		}
 		for _, l := range st.Lits {
 			if l.Op != token.ILLEGAL || !l.Val {
 				continue
@@ -336,17 +370,46 @@ func checkPhaseStores(c *engine.Ctx) {
 			if cl == nil {
 				continue
 			}
-			if o := engine.CalleeObj(cl); o == nil || o.Name() != "After" {
+			o := engine.CalleeObj(cl)
+			if o == nil || o.Pkg() == nil || o.Pkg().Path() != "time" {
 				continue
 			}
-			src := engine.Provenance(cl.Call.Args[len(cl.Call.Args)-1], engine.ProvOpts{})
-			for fv := range src.Fields {
-				if fv.Name() == stamp {
+			args := engine.CallArgs(cl)
+			if len(args) != 2 {
+				continue
+			}
+			switch o.Name() {
+			case "After":
+				if !hasStamp(args[0]) && hasStamp(args[1]) {
+					return true
+				}
+			case "Before":
+				if hasStamp(args[0]) && !hasStamp(args[1]) {
 					return true
 				}
 			}
 		}
-		return false
+		return st.Ordered(func(x ssa.Value, op token.Token, y ssa.Value) bool {
+			if op != token.GTR && op != token.GEQ {
+				return false
+			}
+			cl, _ := engine.ResultOfCall(x)
+			if cl == nil {
+				return false
+			}
+			o := engine.CalleeObj(cl)
+			if o == nil || o.Pkg() == nil || o.Pkg().Path() != "time" {
+				return false
+			}
+			args := engine.CallArgs(cl)
+			switch o.Name() {
+			case "Sub":
+				return len(args) == 2 && !hasStamp(args[0]) && hasStamp(args[1]) && !hasStamp(y)
+			case "Since":
+				return len(args) == 1 && hasStamp(args[0]) && !hasStamp(y)
+			}
+			return false
+		})
 	}
 	n := 0
 	for _, f := range p.RepoFuncs() {
